@@ -7,6 +7,12 @@ EXPLANATION = 'header element encoders / length functions enforced against the C
 HP = ['src/drivers/ncmpio/ncmpio_header_put.c', 'src/drivers/common/ncx.m4']
 HG = ['src/drivers/ncmpio/ncmpio_header_get.c', 'src/drivers/common/ncx.m4']
 
+def create_job(prop):
+    return Job('%s/ncmpio_create/clobber_phase' % prop, prop, ['src/drivers/ncmpio/ncmpio_create.c', 'src/drivers/common/error_mpi2nc.c'], 'C03_create.c', enforce='ncmpio_create',
+                      canaries=['prefixed_name_unlinked', 'truncated', 'exists_refused', 'removal_failed', 'fresh_create', 'created_then_failed'], unwind=8, kind='bounded', timeout=300, solver=['--sat-solver', 'cadical'],
+                      bound='root process of 1 or 2; path with or without a file-system prefix; existence, file kind, create mode and errno of the removal symbolic; MPI_File_open fails (the function ends after the clobber phase)',
+                      assumptions=['ncmpio_create: lstat / unlink / truncate, ncmpii_remove_file_system_type_prefix, MPI_Comm_rank/size, MPI_Bcast (root) and MPI_File_open are harness stubs that record their arguments; only the clobber phase and the failure right after the create are covered'])
+
 def begins_jobs(tier, prop, insts=None):
     js = []
     for nv, ha, ra in (insts or ([(3, 512, 4), (2, 4, 512), (3, 1, 1)] if tier == 'quick' else [(3, 512, 4), (2, 4, 512), (3, 1, 1), (3, 4096, 1024), (4, 512, 512), (1, 512, 4)])):
@@ -28,10 +34,7 @@ def jobs(tier, ws, prop='C03'):
                   replace=['ncmpio_header_get.c:hdr_len_NC_attrarray'], defines=['-DH_len'], canaries=['positive'], unwind=4, kind='proof'))
     js += begins_jobs(tier, prop)
     if prop == 'C03':
-        js.append(Job('C03/ncmpio_create/clobber_phase', 'C03', ['src/drivers/ncmpio/ncmpio_create.c', 'src/drivers/common/error_mpi2nc.c'], 'C03_create.c', enforce='ncmpio_create',
-                      canaries=['prefixed_name_unlinked', 'truncated', 'exists_refused', 'removal_failed', 'fresh_create'], unwind=8, kind='bounded', timeout=300, solver=['--sat-solver', 'cadical'],
-                      bound='root process of 1 or 2; path with or without a file-system prefix; existence, file kind, create mode and errno of the removal symbolic; MPI_File_open fails (the function ends after the clobber phase)',
-                      assumptions=['ncmpio_create: lstat / unlink / truncate, ncmpii_remove_file_system_type_prefix, MPI_Comm_rank/size, MPI_Bcast (root) and MPI_File_open are harness stubs that record their arguments; only the clobber phase is covered']))
+        js.append(create_job('C03'))
     ED = ['src/drivers/ncmpio/ncmpio_enddef.c', 'src/drivers/common/error_mpi2nc.c']
     js.append(Job('%s/ncmpio__enddef' % prop, prop, ED, 'C03_enddef.c', enforce='ncmpio__enddef',
                   replace=['ncmpio_NC_check_vlens', 'ncmpio_enddef.c:NC_begins', 'ncmpio_NC_check_voffs', 'ncmpio_enddef.c:move_record_vars',
